@@ -1,8 +1,9 @@
 import YaqsModel.Basic.Parse
 import YaqsModel.Model.Rank
 import YaqsModel.Model.Bonds
+import YaqsModel.Model.SweepBonds
 /-! line protocol for the rank rules:  `<rule> <params…> | s0 s1 …`  →  kept rank (or `err`) -/
-open Yaqs Yaqs.Rank Yaqs.Bonds
+open Yaqs Yaqs.Rank Yaqs.Bonds Yaqs.SweepBonds
 
 def parseCap? (w : String) : Option (Option Nat) :=
   if w = "none" then some none else (w.toNat?).map some
@@ -17,7 +18,7 @@ def handleInv (full : Bool) (mx mn : Nat) (init obs : List Nat) : String :=
   if obs.length ≠ init.length then "len-mismatch"
   else if idx.isEmpty then "ok" else "viol " ++ joinWith " " (idx.map toString)
 
-def handle (line : String) : String :=
+def handleRank (line : String) : String :=
   match splitBar (words line) with
   | [["qr", d, l, b]] =>
     match d.toNat?, l.toNat?, b.toNat? with
@@ -73,5 +74,108 @@ def handle (line : String) : String :=
         | none => "bad-op"
       | _ => "bad-op"
   | _ => "bad-op"
+
+/-! `sweepbonds <fn> <args…> | <L> <dw|rel> <thr> <min> <max> | phys… | init bonds… | n2… | e0 | e1 | …`
+    replays the op sequence Model.SweepBonds assigns to the call (`fn` ∈ ldtdvp / twosite / singlesite / bug / analog /
+    gate) with the external data `e_k` (`x` none, `s spectrum`, `v thr spectrum`, `t spectrum`, `g value`) given per op
+    position, and prints every op with the value its bond takes, then the final bond vector. -/
+
+def parseExt? : List String → Option Ext
+  | ["x"] => some ⟨[], 0, 0⟩
+  | "s" :: sp => (parseAll? parseRat? sp).map fun s => ⟨s, 0, 0⟩
+  | "v" :: thr :: sp =>
+    match parseRat? thr, parseAll? parseRat? sp with
+    | some t, some s => some ⟨s, t, 0⟩
+    | _, _ => none
+  | "t" :: sp => (parseAll? parseRat? sp).map fun s => ⟨s, 0, 0⟩
+  | ["g", v] => v.toNat?.map fun n => ⟨[], 0, n⟩
+  | _ => none
+
+def parseJump? : List String → Option Jump
+  | ["none"] => some .none
+  | ["stoch", "-"] => some (.stoch Option.none)
+  | ["stoch", p] => p.toNat?.map fun n => .stoch (some n)
+  | "sched" :: ps => (parseAll? String.toNat? ps).map .sched
+  | _ => none
+
+def parseEvo? (w : String) : Option Evo :=
+  if w = "auto" then some .auto
+  else match w.splitOn ":" with
+    | ["bug", c0] => c0.toNat?.map .bug
+    | _ => none
+
+def showOp (o : XOp) (v : Nat) : String :=
+  match o with
+  | .base (.split i _) => s!"split:{i}={v}"
+  | .base (.qr i d) => s!"qr:{i}:{d}={v}"
+  | .base (.svd i _ _) => s!"svd:{i}={v}"
+  | .base (.trunc i _ _ m) => s!"trunc:{i}:{m}={v}"
+  | .qrl i d => s!"qrl:{i}:{d}={v}"
+  | .grow i _ => s!"grow:{i}={v}"
+
+def replay (c : Cfg) (bs : List Nat) (ops : List XOp) (next : Nat) : String :=
+  let (fin, toks) := ops.foldl (fun (st : List Nat × List String) o =>
+    let b := applyX c st.1 o
+    (b, showOp o (b.getD o.bond 1) :: st.2)) (bs, [])
+  let okFinal := fin = runX c bs ops
+  let body := joinWith " " (toks.reverse ++ ["->"] ++ fin.map toString)
+  if ¬ okFinal then "internal-mismatch"
+  else if ops.length ≠ next then body ++ s!" ext-count:{next}/{ops.length}" else body
+
+def handleSweepBonds (secs : List (List String)) : String :=
+  match secs with
+  | ("sweepbonds" :: fn) :: [l, mode, thr, mn, mx] :: physS :: initS :: n2S :: extS =>
+    match l.toNat?, parseRat? thr, mn.toNat?, mx.toNat?, parseAll? String.toNat? physS,
+      parseAll? String.toNat? initS, parseAll? String.toNat? n2S, extS.mapM parseExt? with
+    | some L, some t, some a, some b, some physL, some init, some n2L, some exts =>
+      if mode ≠ "dw" ∧ mode ≠ "rel" then "bad-op"
+      else
+        let c : Cfg := { mode := if mode = "dw" then .dw else .rel, thr := t, minB := a, maxB := b }
+        let phys : Nat → Nat := fun i => physL.getD i 0
+        let n2 : Nat → Nat := fun i => n2L.getD i 0
+        let ext : Nat → Ext := fun k => exts.getD k ⟨[], 0, 0⟩
+        let flag? : String → Option Bool := fun w => if w = "1" then some true else if w = "0" then some false else none
+        let out := fun (ops : List XOp) => replay c init ops exts.length
+        match fn with
+        | ["ldtdvp", d] =>
+          match flag? d with
+          | some dg => out (ldtdvpAuto c L phys dg ext init)
+          | none => "bad-op"
+        | ["twosite", d] =>
+          match flag? d with
+          | some dg =>
+            match twoSiteSk L phys dg with
+            | some sk => out (fillFrom ext 0 sk)
+            | none => "err"
+          | none => "bad-op"
+        | ["singlesite", d] =>
+          match flag? d with
+          | some dg => out (fillFrom ext 0 (singleSiteSk L phys dg))
+          | none => "bad-op"
+        | ["bug", c0] =>
+          match c0.toNat? with
+          | some c0 => out (fillFrom ext 0 (bugSk c L c0))
+          | none => "bad-op"
+        | "analog" :: evo :: noisy :: jump =>
+          match parseEvo? evo, flag? noisy, parseJump? jump with
+          | some e, some nzy, some j => out (analogStep c L phys e ⟨nzy, n2, j⟩ ext init)
+          | _, _, _ => "bad-op"
+        | ["gate", f, la, "nonoise"] =>
+          match f.toNat?, la.toNat? with
+          | some f, some la => out (gateStep L phys f la Option.none ext)
+          | _, _ => "bad-op"
+        | "gate" :: f :: la :: "noise" :: noisy :: jump =>
+          match f.toNat?, la.toNat?, flag? noisy, parseJump? jump with
+          | some f, some la, some nzy, some j => out (gateStep L phys f la (some ⟨nzy, n2, j⟩) ext)
+          | _, _, _, _ => "bad-op"
+        | _ => "bad-op"
+    | _, _, _, _, _, _, _, _ => "bad-op"
+  | _ => "bad-op"
+
+def handle (line : String) : String :=
+  let secs := splitBar (words line)
+  match secs with
+  | ("sweepbonds" :: _) :: _ => handleSweepBonds secs
+  | _ => handleRank line
 
 def main : IO Unit := do lineLoop (← IO.getStdin) handle
